@@ -26,9 +26,11 @@ const tol = 1e-10
 func probes(lo, hi int) []float64 {
 	var ks []float64
 	for k := lo - 2; k <= hi+2; k++ {
-		ks = append(ks, float64(k), float64(k)+0.5)
+		// the integer, the half-integer above it, and the floats adjacent to the integer
+		// (floor(k) semantics must hold right up to the integer)
+		ks = append(ks, float64(k), float64(k)+0.5, math.Nextafter(float64(k), math.Inf(-1)), math.Nextafter(float64(k), math.Inf(1)))
 	}
-	return ks
+	return append(ks, -5e-324, -1e-17, -1e-100, 5e-324, math.Copysign(0, -1))
 }
 
 // ---------------------------------------------------------------- hypergeometric
@@ -328,7 +330,15 @@ func TestRandom(t *testing.T) {
 			case 2:
 				c.Ks = append(c.Ks, mean+rapid.Float64Range(-6, 6).Draw(rt, "kz")*sd)
 			default:
-				c.Ks = append(c.Ks, rapid.SampledFrom([]float64{0, 1, float64(c.N) - 1, float64(c.N), float64(c.N) + 0.5, -0.5}).Draw(rt, "kedge"))
+				c.Ks = append(c.Ks, rapid.SampledFrom([]float64{0, 1, float64(c.N) - 1, float64(c.N), float64(c.N) + 0.5, -0.5, -1e-17, -5e-324}).Draw(rt, "kedge"))
+			}
+			if rapid.IntRange(0, 5).Draw(rt, "justBelow") == 0 {
+				// one ulp below an integer (powers of two are where k+1 rounds up)
+				j := float64(rapid.IntRange(0, c.N+1).Draw(rt, "jb"))
+				if rapid.Bool().Draw(rt, "pow2") {
+					j = math.Exp2(float64(rapid.IntRange(0, 10).Draw(rt, "e2")))
+				}
+				c.Ks[len(c.Ks)-1] = math.Nextafter(j, math.Inf(-1))
 			}
 		}
 		checkBinom.Run(rt, c)
